@@ -240,7 +240,76 @@ def m3_commit_position(S):
                 T.eq(v, T.add(T.imax(0, T.sub(tip, kk)), c.t)))
 
 
-OBLIGATIONS = [m1_since_decode, m2_locks, m3_commit_position]
+def m4_verify_loop(S):
+    """SinceVerifier::verify for one input: only a since that is exactly zero is ignored; invalid flags are InvalidSince;
+    otherwise the verdict is the absolute lock's, then the relative lock's (both as environment results here; m2 decides them)"""
+    ob = "C04.m4"
+    ctx = S.ctx(unwind=4)
+    s = ctx.int("s", "u64")
+    abs_ok = ctx.bool("abs_ok"); rel_ok = ctx.bool("rel_ok")
+    calls = []
+
+    def it_next(ex, callee, args, dty):
+        n = len([e for e in ex.log if e[0] == "next"])
+        ex.log.append(("next", callee, [], list(ex.pc)))
+        if n == 0:
+            item = AggV((IntV(0, "usize"), AggV((ex.ctx.ref_to(OpaqueV("cm", "CellMeta")), OpaqueV("input", "CellInput")), "(&CellMeta, CellInput)")), "(usize, (&CellMeta, CellInput))")
+            return mk_option(True, item, dty)
+        return mk_option(False, None, dty)
+
+    def lock(which, okv):
+        def h(ex, callee, args, dty):
+            sv = args[2]
+            ex.log.append((which, callee, [as_int(sv)], list(ex.pc)))
+            from mir2smt.exec import mk_result
+            return mk_result(okv.t, UNIT, OpaqueV("err_" + which, "Error"), dty)
+        return h
+
+    ctx.env = [
+        (E.rx(r"as Deref>::deref$"), lambda ex, c, a, d: ex.ctx.ref_to(OpaqueV("d." + getattr(deref(ex, a[0]), "name", "x"), "T"))),
+        (E.rx(r"impl \[CellMeta\]>::iter$|TransactionView::inputs$|as Iterator>::(zip|enumerate)|as IntoIterator>::into_iter"), E.opaque_call()),
+        (E.rx(r"Enumerate<.*> as Iterator>::next$"), it_next),
+        (E.rx(r"CellInput::since$"), lambda ex, c, a, d: OpaqueV("since_field", d)),
+        (E.rx(r"Uint64 as Into<u64>>::into$"), lambda ex, c, a, d: s),
+        (E.rx(r"SinceVerifier::<DL>::verify_absolute_lock$"), lock("abs", abs_ok)),
+        (E.rx(r"SinceVerifier::<DL>::verify_relative_lock$"), lock("rel", rel_ok)),
+        (E.rx(r"as Into<.*Error>>::into$|Error as From<.*>>::from$"), lambda ex, c, a, d: deref(ex, a[0])),
+    ]
+    cands = [f for f in S.prog.by_short.get("verify", []) if f.params and "SinceVerifier" in f.params[0][1]]
+    if len(cands) != 1:
+        raise Inconclusive(f"SinceVerifier::verify: {len(cands)} candidates")
+    ps = S.run(ctx, cands[0], [ctx.ref_to(OpaqueV("sv", "SinceVerifier<DL>"))])
+    S.prove(ctx, ob, "no_panic", [], T.not_(cond_of(panics(ps))))
+    rel, metric, remain, value = since_fields(s.t)
+    flags_ok = T.and_(T.eq(remain, 0), T.ne(metric, 3))
+    groups = {}
+    for p in returns(ps):
+        v = p.value
+        if v.disc == 0:
+            k = "ok"
+        else:
+            e = v.payload(1)[0]
+            k = getattr(e, "name", None) or (e.ty.split("::")[-1] if isinstance(e, AggV) else "err?")
+        groups.setdefault(k, []).append(p)
+    okc = cond_of(groups.get("ok", []))
+    inv = cond_of(groups.get("InvalidSince", []))
+    eabs = cond_of(groups.get("err_abs", []))
+    erel = cond_of(groups.get("err_rel", []))
+    if set(groups) - {"ok", "InvalidSince", "err_abs", "err_rel"}:
+        raise Inconclusive(f"unexpected verdict classes {set(groups)}")
+    S.prove(ctx, ob, "only_exactly_zero_since_is_ignored", [], T.implies(T.eq(s.t, 0), okc))
+    S.prove(ctx, ob, "invalid_flags_are_invalid_since_whatever_the_value_bits", [T.ne(s.t, 0)], T.iff(inv, T.not_(flags_ok)))
+    S.prove(ctx, ob, "valid_nonzero_since_takes_both_lock_verdicts", [T.ne(s.t, 0), flags_ok],
+            T.and_(T.iff(okc, T.and_(abs_ok.t, rel_ok.t)), T.iff(eabs, T.not_(abs_ok.t)), T.iff(erel, T.and_(abs_ok.t, T.not_(rel_ok.t)))))
+    # both lock functions receive the input's own since
+    for k, p in enumerate(returns(ps)):
+        for e in p.log:
+            if e[0] in ("abs", "rel"):
+                S.prove(ctx, ob, f"path{k}_{e[0]}_lock_gets_the_inputs_since", [p.cond()], T.eq(e[2][0], s.t))
+    S.witness(ctx, ob, "reach_zero_value_bits_with_flags", [], T.and_(T.ne(s.t, 0), T.eq(value, 0), inv))
+
+
+OBLIGATIONS = [m1_since_decode, m2_locks, m3_commit_position, m4_verify_loop]
 
 
 def validate(S, native):
